@@ -18,7 +18,8 @@ LEVEL = "proof"
 
 def plan(ctx):
     k = 8 if ctx.thorough else 1
-    return [("rel", "idl", 45 * k, 55), ("rel", "rdl", 45 * k, 55), ("hist", "idl", 10 * k, 30), ("hist", "rdl", 10 * k, 30)]
+    return [("rel", "idl", 45 * k, 55), ("rel", "rdl", 45 * k, 55), ("hist", "idl", 10 * k, 30), ("hist", "rdl", 10 * k, 30),
+            ("negrel", "idl", 30 * k, 0), ("negrel", "rdl", 30 * k, 0), ("negrel_realsat", "idl", 12 * k, 0), ("negrel_realsat", "rdl", 12 * k, 0)]
 
 
 def prebuild():
@@ -32,7 +33,10 @@ def run(ctx):
                      "all five relations x {0, 1, 2, 3 variables} x sign of the leading coefficient x variable order x "
                      "{same variable on both sides, both variables on both sides, mismatching coefficients} x integer / rational "
                      "constants and coefficients, on networks with asserted root constraints (so that the shortcuts fire); "
-                     "bounds / distance / equates on the same shapes; non-trivial = distinct dumped states")
+                     "bounds / distance / equates on the same shapes; relation literals (strict and non-strict, scaled forms such as -2x+2y > -10, "
+                     "single-variable forms such as -2x < -7) assigned FALSE / TRUE while undecided (decision, unit clause, clause that "
+                     "propagates later, several enqueues at one level) followed by probes at the boundary, one unit and one infinitesimal "
+                     "beside it (queries, new relations, boundary constraints that must / must not conflict); non-trivial = distinct dumped states")
 
 
 def replay(path):
